@@ -312,7 +312,8 @@ pub (crate) fn bid128_from_string(str: &str, rnd_mode: RoundingMode, pfpsf: &mut
     }
 
     // detect zero (and eliminate/ignore leading zeros)
-    if str.chars().nth(ps) == Some('0') {
+    let leading_zeros_seen: bool = str.chars().nth(ps) == Some('0');
+    if leading_zeros_seen {
         // if all numbers are zeros (with possibly 1 radix point, the number is zero
         // should catch cases such as: 000.0
         while str.chars().nth(ps) == Some('0') {
@@ -431,6 +432,14 @@ pub (crate) fn bid128_from_string(str: &str, rnd_mode: RoundingMode, pfpsf: &mut
             ndigits_total += 1;
         }
         ndigits_after = ndigits_total - ndigits_before;
+    }
+
+    // a number has at least one digit: ".", "+", "-.", ".E1" are not numbers
+    if ndigits_total == 0 && !leading_zeros_seen {
+        // return NaN
+        res.w[1] = 0x7c00000000000000u64;
+        res.w[0] = 0;
+        return res;
     }
 
     // get exponent
